@@ -4,6 +4,7 @@
 package sys
 
 import (
+	"bytes"
 	"context"
 	"errors"
 	"fmt"
@@ -13,8 +14,8 @@ import (
 	"sync"
 	"sync/atomic"
 
-	"storj.io/drpc"
 	"github.com/zeebo/errs"
+	"storj.io/drpc"
 	"storj.io/drpc/drpcconn"
 	"storj.io/drpc/drpcerr"
 	"storj.io/drpc/drpcmanager"
@@ -25,6 +26,11 @@ import (
 	"verif/dir"
 	"verif/vf"
 )
+
+type heldBytes struct {
+	got, want []byte
+	r         int
+}
 
 // MaxRPC is the bound on client RPCs per run (constant MaxRPC of the trace cfg).
 const MaxRPC = 6
@@ -98,6 +104,7 @@ type World struct {
 	EGate      dir.Gate
 	svGoidSeen int64
 	svSeenA    atomic.Int64
+	held       []heldBytes // byte slices RawRecv returned to the application, with their content at that time
 	LastWhere  map[string]string
 	Lines      []Line
 	Quiet      bool
@@ -417,6 +424,24 @@ func (w *World) Apply(st Stim) bool {
 				}
 				return "msg:" + TagOf(m.Data)
 			})
+		case "RecvRaw":
+			rr, ok := s.(interface{ RawRecv() ([]byte, error) })
+			if !ok {
+				w.nst--
+				return false
+			}
+			w.D.Go(st.T, func() string {
+				b, err := rr.RawRecv()
+				if err != nil {
+					w.setCode(st.T, err)
+					return ErrClass(err)
+				}
+				// the caller keeps what it was given: the bytes must stay what they were
+				w.mu.Lock()
+				w.held = append(w.held, heldBytes{got: b, want: append([]byte(nil), b...), r: st.R})
+				w.mu.Unlock()
+				return "msg:" + TagOf(b)
+			})
 		case "CloseSend":
 			w.D.Go(st.T, func() string { return ErrClass(s.CloseSend()) })
 		case "Close":
@@ -663,6 +688,16 @@ func (w *World) Observe() (Obs, bool) {
 		o.TClose[e] = c
 		if mw > 1 {
 			w.Direct = append(w.Direct, "two transport writes in flight on "+e)
+		}
+		if e == "cli" {
+			w.mu.Lock()
+			for i := range w.held {
+				if h := &w.held[i]; h.want != nil && !bytes.Equal(h.got, h.want) {
+					w.Direct = append(w.Direct, fmt.Sprintf("bytes returned by RawRecv to rpc %d changed afterwards (now %q, were %q)", h.r, TagOf(h.got), TagOf(h.want)))
+					h.want = nil
+				}
+			}
+			w.mu.Unlock()
 		}
 		if mr > 1 {
 			w.Direct = append(w.Direct, "two transport reads in flight on "+e)
